@@ -34,30 +34,56 @@ func init() {
 }
 
 type ovfSpec struct {
-	name   string
-	limit  *big.Int // the largest value the accumulator may reach
-	exact  bool     // every refusal of a digit needs a proof of overflow (ParseFloat may truncate early: its tolerance allows it)
+	name  string
+	limit *big.Int // the largest value the accumulator may reach
+	conv  bool     // the accumulator is converted to int64 after the loop: judged path by path
+	exact bool     // every refusal of a digit needs a proof of overflow (ParseFloat may truncate early: its tolerance allows it)
+}
+
+// accumulators that are limited by a digit count, not by a comparison of the value: outside this domain
+var ovfCounted = map[string]string{
+	"ParseDecimal": "not decided: ParseDecimal accumulates at most 18 significant digits by count (i-start < 18), which keeps n below 10^18 < 2^64; a count-based argument is outside the value domain of this rule",
 }
 
 func pow2(n uint) *big.Int { return new(big.Int).Lsh(big.NewInt(1), n) }
 
 func runOvf(r *core.Run) {
 	max64 := new(big.Int).Sub(pow2(64), big.NewInt(1))
-	specs := []ovfSpec{
-		{"ParseInt", pow2(63), true},
-		{"ParseUint", max64, true},
-		{"ParseFloat", max64, false},
+	specs := map[string]ovfSpec{
+		"ParseInt":   {"ParseInt", pow2(63), true, true},
+		"ParseUint":  {"ParseUint", max64, false, true},
+		"ParseFloat": {"ParseFloat", max64, false, false},
 	}
-	total := 0
-	for _, sp := range specs {
-		fn := r.Prog.SSAFunc("strconv", "", sp.name)
-		if fn == nil || len(fn.Blocks) == 0 {
-			r.BrokenAnchor("strconv." + sp.name)
-			continue
+	pkg := r.Prog.SSAPkg("strconv")
+	if pkg == nil {
+		r.BrokenAnchor("package strconv")
+		return
+	}
+	for name := range specs {
+		if fn, ok := pkg.Members[name].(*ssa.Function); !ok || len(fn.Blocks) == 0 {
+			r.BrokenAnchor("strconv." + name)
 		}
-		total += ovfFunc(r, fn, sp)
 	}
-	r.Floor("multiply-add accumulation steps", total, 3)
+	// every function of the package is scanned: the accumulation may live in a helper (scanUint, addDigit); the limits
+	// of the three named parsers apply where the accumulation is written in the parser itself
+	var names []string
+	for name, m := range pkg.Members {
+		if fn, ok := m.(*ssa.Function); ok && len(fn.Blocks) > 0 {
+			names = append(names, name)
+		}
+	}
+	sort.Strings(names)
+	total := 0
+	for _, name := range names {
+		fn := pkg.Members[name].(*ssa.Function)
+		sp, ok := specs[name]
+		if !ok {
+			sp = ovfSpec{name: name, limit: max64, conv: true}
+		}
+		total += ovfFunc(r, pkg, fn, sp)
+	}
+	r.Count("functions of strconv scanned", len(names))
+	r.Floor("multiply-add accumulation steps in package strconv", total, 1)
 }
 
 // ---------------------------------------------------------------- facts
@@ -69,10 +95,16 @@ type ovfFact struct {
 }
 
 type ovfCtx struct {
-	fn       *ssa.Function
-	facts    map[*ssa.BasicBlock][]ovfFact
-	terms    map[ssa.Value]string
-	visiting map[*ssa.Phi]bool
+	pkg         *ssa.Package
+	depth       int
+	condDepth   int
+	opaqueSteps string // some accumulation of the function sits under a guard computed by a call
+	opaqueArg   string // set when a parameter's range could not be read because a call site passes the result of a call
+	fn          *ssa.Function
+	facts       map[*ssa.BasicBlock][]ovfFact
+	terms       map[ssa.Value]string
+	visiting    map[*ssa.Phi]int // arithmetic depth (+1) at which the phi's evaluation started
+	arith       int
 }
 
 func isUnsigned(t types.Type) bool {
@@ -163,7 +195,7 @@ func (c *ovfCtx) factsAt(b *ssa.BasicBlock) []ovfFact {
 		for k := 0; k < 2; k++ {
 			s := d.Succs[k]
 			if len(s.Preds) == 1 && s.Dominates(b) {
-				out = append(out, condFacts(iff.Cond, k == 0)...)
+				out = append(out, c.condFacts(iff.Cond, k == 0)...)
 			}
 		}
 	}
@@ -172,13 +204,53 @@ func (c *ovfCtx) factsAt(b *ssa.BasicBlock) []ovfFact {
 }
 
 // condFacts turns a comparison taken with the given truth value into facts.
-func condFacts(cond ssa.Value, truth bool) []ovfFact {
+func (c *ovfCtx) condFacts(cond ssa.Value, truth bool) []ovfFact {
 	switch x := cond.(type) {
 	case *ssa.UnOp:
 		if x.Op == token.NOT {
-			return condFacts(x.X, !truth)
+			return c.condFacts(x.X, !truth)
 		}
+	case *ssa.Phi:
+		// a materialised || or && (tagless switch cases, conditions stored in a variable): the edges that carry the
+		// constant opposite to `truth` are excluded; if one edge remains, its value has the truth value and the facts
+		// of the block it comes from hold (that block was left immediately before)
+		if c.condDepth > 6 {
+			return nil
+		}
+		rem := -1
+		for i, e := range x.Edges {
+			if k, ok := e.(*ssa.Const); ok && k.Value != nil && k.Value.Kind() == constant.Bool {
+				if constant.BoolVal(k.Value) != truth {
+					continue
+				}
+				return nil // the constant itself has the wanted value: nothing follows
+			}
+			if rem >= 0 {
+				return nil
+			}
+			rem = i
+		}
+		if rem < 0 {
+			return nil
+		}
+		c.condDepth++
+		out := append([]ovfFact{}, c.factsAt(x.Block().Preds[rem])...)
+		out = append(out, c.condFacts(x.Edges[rem], truth)...)
+		c.condDepth--
+		return out
 	case *ssa.BinOp:
+		if bt, ok := x.X.Type().Underlying().(*types.Basic); ok && bt.Info()&types.IsBoolean != 0 && (x.Op == token.EQL || x.Op == token.NEQ) {
+			for _, pair := range [][2]ssa.Value{{x.X, x.Y}, {x.Y, x.X}} {
+				if k, ok := pair[0].(*ssa.Const); ok && k.Value != nil && k.Value.Kind() == constant.Bool {
+					want := constant.BoolVal(k.Value) == truth
+					if x.Op == token.NEQ {
+						want = !want
+					}
+					return c.condFacts(pair[1], want)
+				}
+			}
+			return nil
+		}
 		if !isUnsigned(x.X.Type()) {
 			return nil
 		}
@@ -267,6 +339,10 @@ func (c *ovfCtx) bound(v ssa.Value, facts []ovfFact) (*big.Int, *big.Int) {
 		}
 		best = minBig(best, ru)
 	}
+	if _, isPhi := v.(*ssa.Phi); !isPhi {
+		c.arith++
+		defer func() { c.arith-- }()
+	}
 	switch x := v.(type) {
 	case *ssa.BinOp:
 		xu, yu := c.upper(x.X, facts), c.upper(x.Y, facts)
@@ -289,9 +365,10 @@ func (c *ovfCtx) bound(v ssa.Value, facts []ovfFact) (*big.Int, *big.Int) {
 					if !ok || sub.Op != token.SUB || c.term(sub.Y) != bt {
 						continue
 					}
-					m := ovfConst(sub.X)
+					// M may be a constant or a value bounded from below (a limit parameter): b <= M keeps M - b from wrapping
+					m := c.upperStruct(sub.X, facts)
 					bu := c.upper(pair[1], facts)
-					if m == nil || bu == nil || bu.Cmp(m) > 0 {
+					if m == nil || bu == nil || bu.Cmp(c.lower(sub.X, facts)) > 0 {
 						continue
 					}
 					lim := m
@@ -324,13 +401,22 @@ func (c *ovfCtx) bound(v ssa.Value, facts []ovfFact) (*big.Int, *big.Int) {
 				exact = xu
 			}
 		}
+	case *ssa.Parameter:
+		if _, hi := c.paramRange(x); hi != nil {
+			best = minBig(best, hi)
+		}
 	case *ssa.Phi:
-		if c.visiting[x] {
+		if c.visiting[x] != 0 {
 			break
 		}
-		c.visiting[x] = true
+		c.visiting[x] = c.arith + 1
 		var m *big.Int
 		for i, e := range x.Edges {
+			if ep, ok := e.(*ssa.Phi); ok && c.visiting[ep] == c.arith+1 {
+				// a plain copy of a phi under evaluation, reached through phis only (no arithmetic in between), adds
+				// nothing to its bound: the least solution of max-equations
+				continue
+			}
 			eu := c.upper(e, c.factsAt(x.Block().Preds[i]))
 			if eu == nil {
 				m = nil
@@ -359,14 +445,13 @@ func (c *ovfCtx) upperNoFact(v ssa.Value, facts []ovfFact) *big.Int {
 		return n
 	}
 	if x, ok := v.(*ssa.BinOp); ok && x.Op == token.SUB {
-		if m := ovfConst(x.X); m != nil {
-			// M - y <= M when it does not wrap; when it wraps nothing is known
-			if yu := c.upperStruct(x.Y, facts); yu != nil && yu.Cmp(m) <= 0 {
-				return m
-			}
+		// M - y <= M when it does not wrap (y <= M for every M the minuend can be); when it may wrap nothing is known
+		if yu := c.upperStruct(x.Y, facts); yu != nil && yu.Cmp(c.lower(x.X, facts)) <= 0 {
+			return c.upperStruct(x.X, facts)
 		}
+		return typeMax(v.Type())
 	}
-	return typeMax(v.Type())
+	return c.upperStruct(v, facts)
 }
 
 // upperStruct: a bound from constant facts and conversions only.
@@ -393,6 +478,10 @@ func (c *ovfCtx) upperStruct(v ssa.Value, facts []ovfFact) *big.Int {
 		}
 	}
 	switch x := v.(type) {
+	case *ssa.Parameter:
+		if _, hi := c.paramRange(x); hi != nil {
+			best = minBig(best, hi)
+		}
 	case *ssa.Convert:
 		if isUnsigned(x.X.Type()) {
 			if xu := c.upperStruct(x.X, facts); xu != nil {
@@ -400,6 +489,11 @@ func (c *ovfCtx) upperStruct(v ssa.Value, facts []ovfFact) *big.Int {
 			}
 		}
 	case *ssa.BinOp:
+		if x.Op == token.QUO {
+			if xu, yl := c.upperStruct(x.X, facts), c.lower(x.Y, facts); xu != nil && yl.Sign() > 0 {
+				best = minBig(best, new(big.Int).Quo(xu, yl))
+			}
+		}
 		if x.Op == token.SUB {
 			xu, yl, xl, yu := c.upperStruct(x.X, facts), c.lower(x.Y, facts), c.lower(x.X, facts), c.upperStruct(x.Y, facts)
 			if xu != nil && yu != nil && xl.Cmp(yu) >= 0 {
@@ -432,6 +526,10 @@ func (c *ovfCtx) lower(v ssa.Value, facts []ovfFact) *big.Int {
 		}
 	}
 	switch x := v.(type) {
+	case *ssa.Parameter:
+		if lo, _ := c.paramRange(x); lo != nil {
+			best = maxBig(best, lo)
+		}
 	case *ssa.Convert:
 		if isUnsigned(x.X.Type()) {
 			if tm := typeMax(x.Type()); tm != nil {
@@ -488,7 +586,7 @@ func flowsToPhi(v ssa.Value, seen map[ssa.Value]bool) bool {
 	}
 	for _, in := range *refs {
 		switch x := in.(type) {
-		case *ssa.Phi:
+		case *ssa.Phi, *ssa.Return:
 			return true
 		case *ssa.BinOp:
 			if (x.Op == token.ADD || x.Op == token.MUL) && flowsToPhi(x, seen) {
@@ -507,8 +605,8 @@ func flowsToPhi(v ssa.Value, seen map[ssa.Value]bool) bool {
 	return false
 }
 
-func ovfFunc(r *core.Run, fn *ssa.Function, sp ovfSpec) int {
-	c := &ovfCtx{fn: fn, facts: map[*ssa.BasicBlock][]ovfFact{}, terms: map[ssa.Value]string{}, visiting: map[*ssa.Phi]bool{}}
+func ovfFunc(r *core.Run, pkg *ssa.Package, fn *ssa.Function, sp ovfSpec) int {
+	c := &ovfCtx{pkg: pkg, fn: fn, facts: map[*ssa.BasicBlock][]ovfFact{}, terms: map[ssa.Value]string{}, visiting: map[*ssa.Phi]int{}}
 	name := "strconv." + sp.name
 	// 1. every product of an accumulator phi with a constant (in guards and in the body) and every sum that adds to such a product
 	type step struct {
@@ -529,7 +627,10 @@ func ovfFunc(r *core.Run, fn *ssa.Function, sp ovfSpec) int {
 			} else if ovfConst(x.X) != nil {
 				acc = x.Y
 			}
-			if acc == nil || derivesFromPhi(acc, map[ssa.Value]bool{}) == nil {
+			if acc == nil {
+				continue
+			}
+			if _, isParam := acc.(*ssa.Parameter); !isParam && derivesFromPhi(acc, map[ssa.Value]bool{}) == nil {
 				continue
 			}
 			mulTerm[c.term(x)] = x
@@ -560,9 +661,18 @@ func ovfFunc(r *core.Run, fn *ssa.Function, sp ovfSpec) int {
 		tm := typeMax(m.Type())
 		if exact == nil {
 			r.Unknown(key, m.Pos(), "the operands of the product cannot be bounded")
+		} else if why := ovfCounted[sp.name]; why != "" && exact.Cmp(tm) > 0 {
+			r.Except(key, m.Pos(), why)
+		} else if why := c.opaque(m.Block()); why != "" && exact.Cmp(tm) > 0 {
+			r.Except(key, m.Pos(), "not decided: "+why)
 		} else {
 			r.Check(exact.Cmp(tm) <= 0, key, m.Pos(), fmt.Sprintf("at most %s under the guards that dominate it", exact),
 				fmt.Sprintf("the product can reach %s > %s: no guard that dominates it bounds the accumulator tightly enough, so it wraps (a guard evaluated before its own protection, or a weakened limit)", exact, tm))
+		}
+	}
+	for _, s := range steps {
+		if why := c.opaque(s.add.Block()); why != "" {
+			c.opaqueSteps = why
 		}
 	}
 	for i, s := range steps {
@@ -571,6 +681,10 @@ func ovfFunc(r *core.Run, fn *ssa.Function, sp ovfSpec) int {
 		key := fmt.Sprintf("%s accumulation %d stays within %s", name, i+1, sp.limit)
 		if exact == nil {
 			r.Unknown(key, s.add.Pos(), "the operands of the sum cannot be bounded")
+		} else if why := ovfCounted[sp.name]; why != "" && exact.Cmp(sp.limit) > 0 {
+			r.Except(key, s.add.Pos(), why)
+		} else if why := c.opaque(s.add.Block()); why != "" && exact.Cmp(sp.limit) > 0 {
+			r.Except(key, s.add.Pos(), "not decided: "+why)
 		} else {
 			r.Check(exact.Cmp(sp.limit) <= 0, key, s.add.Pos(), fmt.Sprintf("n*K+d <= %s under the guards that dominate it", exact),
 				fmt.Sprintf("n*K+d can reach %s, beyond the limit %s of %s: the guards that dominate the accumulation do not exclude it", exact, sp.limit, sp.name))
@@ -579,6 +693,9 @@ func ovfFunc(r *core.Run, fn *ssa.Function, sp ovfSpec) int {
 		if sp.exact {
 			ovfRefusals(r, c, sp, s.mul, s.add, i+1)
 		}
+	}
+	if sp.conv {
+		ovfConversions(r, c, sp)
 	}
 	r.Count("accumulator products", len(muls))
 	r.Count("accumulation steps", len(steps))
@@ -624,7 +741,7 @@ func ovfRefusals(r *core.Run, c *ovfCtx, sp ovfSpec, mul, add *ssa.BinOp, idx in
 		}
 		_ = accT
 		n++
-		facts := append(append([]ovfFact{}, df...), condFacts(iff.Cond, away == 0)...)
+		facts := append(append([]ovfFact{}, df...), c.condFacts(iff.Cond, away == 0)...)
 		key := fmt.Sprintf("%s accumulation %d: refusal %d of a digit implies overflow", name, idx, n)
 		// K*n + d, from lower bounds
 		lo := new(big.Int).Add(new(big.Int).Mul(k, c.lower(acc, facts)), c.lower(digit, facts))
@@ -672,4 +789,310 @@ func mentionsTerm(c *ovfCtx, v ssa.Value, t string) bool {
 		return mentionsTerm(c, x.X, t)
 	}
 	return false
+}
+
+// ---------------------------------------------------------------- conversions after the loop
+
+// ovfConversions: every conversion of the accumulator to int64 is exact. int64(n) needs n <= MaxInt64; when the only use
+// of the conversion is a negation, n <= 2^63 suffices (-int64(2^63) is MinInt64, the exact value). The branches after
+// the loop are correlated (`!neg && MaxInt64 < n` ... `else if neg`), so dominating facts are not enough: every acyclic
+// path from the accumulator's block to the conversion is enumerated, a path that takes both truth values of one
+// condition is infeasible, and on each remaining path the accumulator is bounded by the inductive bound of its phi and
+// the constant comparisons met on the path. (Each block occurs once on such a path, so every SSA value on it has one
+// meaning; a cycle between the two blocks leaves the conversion undecided.)
+func ovfConversions(r *core.Run, c *ovfCtx, sp ovfSpec) {
+	name := "strconv." + sp.name
+	maxI := new(big.Int).Sub(pow2(63), big.NewInt(1))
+	n := 0
+	for _, b := range c.fn.Blocks {
+		for _, in := range b.Instrs {
+			cv, ok := in.(*ssa.Convert)
+			if !ok || !isUnsigned(cv.X.Type()) {
+				continue
+			}
+			tb, ok := cv.Type().Underlying().(*types.Basic)
+			if !ok || tb.Kind() != types.Int64 {
+				continue
+			}
+			phi := derivesFromPhi(cv.X, map[ssa.Value]bool{})
+			if phi == nil || !phiAccumulates(phi) {
+				continue
+			}
+			n++
+			need, what := maxI, "MaxInt64"
+			if refs := cv.Referrers(); refs != nil && len(*refs) > 0 {
+				allNeg := true
+				for _, u := range *refs {
+					if un, ok := u.(*ssa.UnOp); !ok || un.Op != token.SUB {
+						allNeg = false
+					}
+				}
+				if allNeg {
+					need, what = pow2(63), "2^63 (negated)"
+				}
+			}
+			key := fmt.Sprintf("%s conversion %d of the accumulator to int64 is exact", name, n)
+			h := phi.Block()
+			if !h.Dominates(b) {
+				r.Unknown(key, cv.Pos(), "the accumulator's block does not dominate the conversion")
+				continue
+			}
+			ind := c.upper(phi, nil)
+			if ind == nil {
+				r.Unknown(key, cv.Pos(), "the accumulator cannot be bounded")
+				continue
+			}
+			phiT := c.term(phi)
+			type lit struct {
+				t     string
+				truth bool
+			}
+			paths, feasible, cyclic := 0, 0, false
+			worst := big.NewInt(0)
+			worstPath := ""
+			onPath := map[*ssa.BasicBlock]bool{}
+			var walk func(cur *ssa.BasicBlock, facts []ovfFact, lits []lit, trail string)
+			walk = func(cur *ssa.BasicBlock, facts []ovfFact, lits []lit, trail string) {
+				if paths > 4096 {
+					return
+				}
+				if cur == h {
+					paths++
+					seen := map[string]bool{}
+					for _, l := range lits {
+						if v, ok := seen[l.t]; ok && v != l.truth {
+							return // infeasible: one condition, both truth values
+						}
+						seen[l.t] = l.truth
+					}
+					feasible++
+					ub := ind
+					for _, f := range facts {
+						if c.term(f.lhs) != phiT {
+							continue
+						}
+						if k := ovfConst(f.rhs); k != nil {
+							if f.strict {
+								k = new(big.Int).Sub(k, big.NewInt(1))
+							}
+							ub = minBig(ub, k)
+						}
+					}
+					if ub.Cmp(worst) > 0 {
+						worst, worstPath = ub, trail
+					}
+					return
+				}
+				onPath[cur] = true
+				for _, p := range cur.Preds {
+					if onPath[p] {
+						cyclic = true
+						continue
+					}
+					f2, l2, t2 := facts, lits, trail
+					if iff, ok := p.Instrs[len(p.Instrs)-1].(*ssa.If); ok && p.Succs[0] != p.Succs[1] {
+						truth := p.Succs[0] == cur
+						f2 = append(append([]ovfFact{}, facts...), c.condFacts(iff.Cond, truth)...)
+						cond, tr := iff.Cond, truth
+						for {
+							un, ok := cond.(*ssa.UnOp)
+							if !ok || un.Op != token.NOT {
+								break
+							}
+							cond, tr = un.X, !tr
+						}
+						l2 = append(append([]lit{}, lits...), lit{c.term(cond), tr})
+						t2 = fmt.Sprintf("%s <- b%d[%v]", trail, p.Index, truth)
+					}
+					if p == h {
+						walk(h, f2, l2, t2)
+					} else {
+						walk(p, f2, l2, t2)
+					}
+				}
+				delete(onPath, cur)
+			}
+			if b == h {
+				worst, feasible, paths = ind, 1, 1
+			} else {
+				walk(b, nil, nil, fmt.Sprintf("b%d", b.Index))
+			}
+			switch {
+			case cyclic || paths > 4096:
+				r.Unknown(key, cv.Pos(), "the blocks between the accumulator and the conversion contain a cycle or too many paths")
+			case worst.Cmp(need) <= 0:
+				r.OK(key, cv.Pos(), fmt.Sprintf("%d paths, %d feasible; the accumulator is at most %s <= %s on each", paths, feasible, worst, what))
+			case c.opaqueSteps != "":
+				r.Except(key, cv.Pos(), "not decided: "+c.opaqueSteps)
+			default:
+				r.Fail(key, cv.Pos(), fmt.Sprintf("on the path %s the accumulator can be as large as %s > %s: the conversion changes the value (a sign-specific limit is missing or attached to the wrong sign)", worstPath, worst, what))
+			}
+		}
+	}
+	r.Count("conversions of the accumulator judged", n)
+}
+
+// phiAccumulates: some edge of the phi (through further phis) is a sum or product computed from the phi itself.
+func phiAccumulates(phi *ssa.Phi) bool {
+	seen := map[ssa.Value]bool{}
+	var reach func(v ssa.Value, arith bool) bool
+	reach = func(v ssa.Value, arith bool) bool {
+		if v == phi && arith {
+			return true
+		}
+		if seen[v] {
+			return false
+		}
+		seen[v] = true
+		switch x := v.(type) {
+		case *ssa.Phi:
+			for _, e := range x.Edges {
+				if reach(e, arith) {
+					return true
+				}
+			}
+		case *ssa.BinOp:
+			if x.Op == token.MUL || x.Op == token.ADD {
+				return reach(x.X, x.Op == token.MUL || arith) || reach(x.Y, x.Op == token.MUL || arith)
+			}
+		}
+		return false
+	}
+	for _, e := range phi.Edges {
+		if reach(e, false) {
+			return true
+		}
+	}
+	return false
+}
+
+// ---------------------------------------------------------------- helpers: parameters and opaque guards
+
+// paramRange bounds a parameter of an unexported, never address-taken function by the arguments of its call sites in
+// the package (each judged under the facts of its own call site; two levels deep). Anything else: unknown.
+func (c *ovfCtx) paramRange(p *ssa.Parameter) (*big.Int, *big.Int) {
+	fn := p.Parent()
+	if c.pkg == nil || c.depth >= 2 || fn == nil || fn.Object() == nil || fn.Object().Exported() || fn.Signature.Recv() != nil || typeMax(p.Type()) == nil {
+		return nil, nil
+	}
+	idx := -1
+	for i, q := range fn.Params {
+		if q == p {
+			idx = i
+		}
+	}
+	if idx < 0 {
+		return nil, nil
+	}
+	var lo, hi *big.Int
+	sites := 0
+	for _, m := range c.pkg.Members {
+		caller, ok := m.(*ssa.Function)
+		if !ok {
+			continue
+		}
+		var cc *ovfCtx
+		for _, b := range caller.Blocks {
+			for _, in := range b.Instrs {
+				var rands [16]*ssa.Value
+				for _, op := range in.Operands(rands[:0]) {
+					if *op == ssa.Value(fn) {
+						if call, ok := in.(ssa.CallInstruction); !ok || call.Common().Value != ssa.Value(fn) {
+							return nil, nil // the function is used as a value
+						}
+					}
+				}
+				call, ok := in.(ssa.CallInstruction)
+				if !ok || call.Common().StaticCallee() != fn {
+					continue
+				}
+				if _, isCall := in.(*ssa.Call); !isCall {
+					return nil, nil // go/defer
+				}
+				if cc == nil {
+					cc = &ovfCtx{pkg: c.pkg, depth: c.depth + 1, fn: caller, facts: map[*ssa.BasicBlock][]ovfFact{}, terms: map[ssa.Value]string{}, visiting: map[*ssa.Phi]int{}}
+				}
+				arg := call.Common().Args[idx]
+				if why := reachesCall(arg, map[ssa.Value]bool{}); why != "" {
+					c.opaqueArg = fmt.Sprintf("the argument for %s at a call site in %s is computed by %s", p.Name(), caller.Name(), why)
+				}
+				facts := cc.factsAt(b)
+				au, al := cc.upperStruct(arg, facts), cc.lower(arg, facts)
+				if au == nil {
+					return nil, nil
+				}
+				sites++
+				if lo == nil || al.Cmp(lo) < 0 {
+					lo = al
+				}
+				if hi == nil || au.Cmp(hi) > 0 {
+					hi = au
+				}
+			}
+		}
+	}
+	if sites == 0 {
+		return nil, nil
+	}
+	return lo, hi
+}
+
+// opaque says why the guards above a block cannot be read here: a dominating condition is computed by a call.
+func (c *ovfCtx) opaque(b *ssa.BasicBlock) string {
+	if c.opaqueArg != "" {
+		return c.opaqueArg
+	}
+	for cur := b; cur.Idom() != nil; cur = cur.Idom() {
+		d := cur.Idom()
+		iff, ok := d.Instrs[len(d.Instrs)-1].(*ssa.If)
+		if !ok {
+			continue
+		}
+		if call := reachesCall(iff.Cond, map[ssa.Value]bool{}); call != "" {
+			return "a condition that dominates the accumulation is computed by " + call + "; the guard is not read through the call"
+		}
+	}
+	return ""
+}
+
+func reachesCall(v ssa.Value, seen map[ssa.Value]bool) string {
+	if seen[v] {
+		return ""
+	}
+	seen[v] = true
+	switch x := v.(type) {
+	case *ssa.Call:
+		if _, builtin := x.Call.Value.(*ssa.Builtin); builtin {
+			return "" // len, cap, min, max: transparent
+		}
+		if f := x.Call.StaticCallee(); f != nil {
+			return "a call of " + f.Name()
+		}
+		return "a call"
+	case *ssa.Extract:
+		return reachesCall(x.Tuple, seen)
+	case *ssa.UnOp:
+		if x.Op == token.NOT {
+			return reachesCall(x.X, seen)
+		}
+	case *ssa.BinOp:
+		// only the boolean structure is followed: a comparison of numbers is readable whatever its operands are
+		if bt, ok := x.X.Type().Underlying().(*types.Basic); !ok || bt.Info()&types.IsBoolean == 0 {
+			return ""
+		}
+		if s := reachesCall(x.X, seen); s != "" {
+			return s
+		}
+		return reachesCall(x.Y, seen)
+	case *ssa.Phi:
+		if bt, ok := x.Type().Underlying().(*types.Basic); !ok || bt.Info()&types.IsBoolean == 0 {
+			return ""
+		}
+		for _, e := range x.Edges {
+			if s := reachesCall(e, seen); s != "" {
+				return s
+			}
+		}
+	}
+	return ""
 }
